@@ -217,3 +217,14 @@ def place(path, table, px, mode="symm", at=None, cols=("count",), names=None, pr
         read_everything(uri)
     make_cooler(uri, table, px, mode, cols, names, mode_="a", **kw)
     return uri
+
+
+def feat(seed, h):
+    """Independent pseudo-random feature choices for case number h: f(name, n) in 0..n-1 depends on (seed, h, name) only, so
+    two features are uncorrelated whatever their moduli (striding h % n couples every pair of features whose moduli share a
+    factor - a duplex option that only ever met the API path was how that was noticed), and one feature asked twice agrees."""
+    import zlib
+
+    def f(name, n):
+        return zlib.crc32(f"{seed}/{h}/{name}".encode()) % n
+    return f
